@@ -26,23 +26,38 @@ def main():
     demo_name = "demo_" + sid.lower().replace("-", "_")
     demo_dst = os.path.join(wt, "a2lfile", "tests", demo_name + ".rs")
     sh("git checkout -- . && git clean -fdq a2lfile/tests", wt)
-    os.makedirs(os.path.dirname(demo_dst), exist_ok=True)
-    # without the change: demo passes
-    shutil.copy(demo, demo_dst)
-    rc0, out0 = sh(f"cargo test --offline --target-dir {tgt} -p a2lfile --test {demo_name} 2>&1 | tail -15", wt)
-    ok_without = "test result: ok" in out0
-    # with the change: compiles, suite passes, demo fails
-    rc, out = sh(f"git apply {patch}", wt)
-    if rc != 0:
-        print("patch does not apply:", out)
-        sys.exit(2)
-    os.remove(demo_dst)
-    rc1, out1 = sh(f"cargo test --workspace --no-fail-fast --offline --target-dir {tgt} 2>&1 | grep -E '^test result|FAILED|^error' ", wt)
-    suite_ok = "FAILED" not in out1 and "error" not in out1 and "test result: ok" in out1
-    shutil.copy(demo, demo_dst)
-    rc2, out2 = sh(f"cargo test --offline --target-dir {tgt} -p a2lfile --test {demo_name} 2>&1 | tail -25", wt)
-    fails_with = "test result: FAILED" in out2 or "panicked" in out2
-    sh("git checkout -- . && git clean -fdq a2lfile/tests", wt)
+    crate = os.path.isdir(demo)          # a scratch crate that links the in-tree a2lmacros (C19) instead of a test file
+    if crate:
+        run_demo = f"cargo run --offline --quiet --manifest-path {demo}/Cargo.toml --target-dir {tgt} > /dev/null 2>&1; echo DEMO-EXIT=$?"
+        rc0, out0 = sh(run_demo, wt)
+        ok_without = "DEMO-EXIT=0" in out0
+        rc, out = sh(f"git apply {patch}", wt)
+        if rc != 0:
+            print("patch does not apply:", out)
+            sys.exit(2)
+        rc1, out1 = sh(f"cargo test --workspace --no-fail-fast --offline --target-dir {tgt} 2>&1 | grep -E '^test result|FAILED|^error' ", wt)
+        suite_ok = "FAILED" not in out1 and "error" not in out1 and "test result: ok" in out1
+        rc2, out2 = sh(run_demo, wt)
+        fails_with = "DEMO-EXIT=" in out2 and "DEMO-EXIT=0" not in out2
+        sh("git checkout -- .", wt)
+    else:
+        os.makedirs(os.path.dirname(demo_dst), exist_ok=True)
+        # without the change: demo passes
+        shutil.copy(demo, demo_dst)
+        rc0, out0 = sh(f"cargo test --offline --target-dir {tgt} -p a2lfile --test {demo_name} 2>&1 | tail -15", wt)
+        ok_without = "test result: ok" in out0
+        # with the change: compiles, suite passes, demo fails
+        rc, out = sh(f"git apply {patch}", wt)
+        if rc != 0:
+            print("patch does not apply:", out)
+            sys.exit(2)
+        os.remove(demo_dst)
+        rc1, out1 = sh(f"cargo test --workspace --no-fail-fast --offline --target-dir {tgt} 2>&1 | grep -E '^test result|FAILED|^error' ", wt)
+        suite_ok = "FAILED" not in out1 and "error" not in out1 and "test result: ok" in out1
+        shutil.copy(demo, demo_dst)
+        rc2, out2 = sh(f"cargo test --offline --target-dir {tgt} -p a2lfile --test {demo_name} 2>&1 | tail -25", wt)
+        fails_with = "test result: FAILED" in out2 or "panicked" in out2
+        sh("git checkout -- . && git clean -fdq a2lfile/tests", wt)
     meta["confirmed"] = {"demo_passes_without_change": ok_without, "existing_suite_passes_with_change": suite_ok,
                          "demo_fails_with_change": fails_with}
     meta["ran"].append("cargo test --workspace --no-fail-fast --offline (with change); cargo test --test <demo> with and without change")
@@ -68,7 +83,10 @@ def main():
     d = os.path.join(VERIF, "seeded", sid)
     os.makedirs(d, exist_ok=True)
     shutil.copy(patch, os.path.join(d, "patch.diff"))
-    shutil.copy(demo, os.path.join(d, "demo.rs"))
+    if os.path.isdir(demo):
+        shutil.copytree(demo, os.path.join(d, "democrate"), dirs_exist_ok=True, ignore=shutil.ignore_patterns("target"))
+    else:
+        shutil.copy(demo, os.path.join(d, "demo.rs"))
     notes = os.path.join(os.path.dirname(patch), "notes.md")
     if os.path.exists(notes):
         meta["needs_to_manifest"] = open(notes).read()[:1500]
